@@ -487,8 +487,259 @@ def correspondence(rng, tier):
     return [interp_cases(rng, tier, variants), sampling_cases(rng, tier)] + resample_cases(rng, tier, variants)
 
 
+# ------------------------------------------------------------------- probes
+# The property evaluated directly on the implementation against an independent textbook
+# reference in exact rational arithmetic (no Coq model involved).
+REF = r"""
+import itertools, warnings
+import numpy as np
+from fractions import Fraction as F
+warnings.simplefilter('ignore'); np.seterr(all='ignore')
+import odl
+from odl.discr.discr_utils import nearest_interpolator, linear_interpolator, per_axis_interpolator
+from odl.discr.grid import sparse_meshgrid
+def ref_axis(s, c, x):
+    # [(node index, weight)]: the textbook rule on one axis
+    c = [F(a) for a in c]; x = F(x); n = len(c)
+    if s == 'nearest':
+        d = [abs(x - a) for a in c]; m = min(d)
+        return [(max(j for j in range(n) if d[j] == m), F(1))]     # closest node, right one on ties
+    if x < c[0]:
+        return [(0, 1 - (c[0] - x) / (c[1] - c[0]))]                # zero extension: one-cell linear decay
+    if x > c[-1]:
+        return [(n - 1, 1 - (x - c[-1]) / (c[-1] - c[-2]))]
+    i = max(j for j in range(n - 1) if c[j] <= x)
+    t = (x - c[i]) / (c[i + 1] - c[i])
+    return [(i, 1 - t), (i + 1, t)]                                 # blend of the two surrounding nodes
+def ref_interp(schemes, cvs, f, pt):
+    re = im = F(0)
+    for combo in itertools.product(*[ref_axis(s, c, x) for s, c, x in zip(schemes, cvs, pt)]):
+        w = F(1)
+        for _, wk in combo:
+            w *= wk
+        v = complex(f[tuple(j for j, _ in combo)])
+        re += w * F(v.real); im += w * F(v.imag)
+    return complex(float(re), float(im))
+def make(kind, schemes, f, cvs):
+    cv = [np.array(c, dtype=float) for c in cvs]
+    if kind == 'nearest':
+        return nearest_interpolator(f, cv)
+    if kind == 'linear':
+        return linear_interpolator(f, cv)
+    return per_axis_interpolator(f, cv, schemes)
+def call(itp, conv, pts, d):
+    # evaluate at the points (list of d-tuples) with the given calling convention -> flat complex list
+    if conv == 'single':
+        return [complex(itp(p[0] if d == 1 else list(p))) for p in pts]
+    if conv == 'array':
+        return [complex(v) for v in np.asarray(itp(np.array(pts, dtype=float).T)).ravel()]
+    raise ValueError(conv)
+def close(a, b, tol):
+    return all(abs(x - y) <= tol * (1 + abs(y)) for x, y in zip(a, b)) and len(a) == len(b)
+"""
+
+
+def _exec(snippet):
+    env = {}
+    try:
+        exec(snippet, env)
+        return bool(env.get('ok')), None
+    except Exception as e:
+        return False, '%s: %s' % (type(e).__name__, str(e)[:200])
+
+
+def _probe(out, key, what, snippet):
+    ok, err = _exec(snippet)
+    out.append(C.Probe(ok, key, what, snippet, err))
+
+
+def _rand_values(rng, shape, dtype):
+    size = int(np.prod(shape))
+    if dtype == 'complex128':
+        return 'np.array(%r).reshape(%r) + 1j * np.array(%r).reshape(%r)' % (
+            [float(rng.randint(-9, 9)) for _ in range(size)], tuple(shape),
+            [float(rng.randint(-9, 9)) for _ in range(size)], tuple(shape))
+    if dtype == 'str':
+        return 'np.array(%r).reshape(%r)' % ([chr(97 + rng.randint(0, 25)) for _ in range(size)], tuple(shape))
+    return 'np.array(%r, dtype=%r).reshape(%r)' % ([float(rng.randint(-9, 9)) for _ in range(size)], dtype,
+                                                   tuple(shape))
+
+
 def probes(rng, tier):
-    return []
+    out = []
+    reps = 1 if tier == 'quick' else 5
+    kinds = [('nearest', None), ('linear', None), ('per_axis', 'mix')]
+
+    # ---- 1. node reproduction: every factory, dtype, calling convention
+    for _ in range(reps):
+        for d in (1, 2, 3):
+            for kind, _m in kinds:
+                for dtype in ('float64', 'float32', 'complex128', 'int64', 'str'):
+                    if dtype in ('int64', 'str') and kind != 'nearest':
+                        continue          # arithmetic on the values: only 'nearest' is defined for these
+                    shape = [rng.randint(2, {1: 6, 2: 4, 3: 3}[d]) for _ in range(d)]
+                    cvs = [gen_cvec(rng, n) for n in shape]
+                    schemes = [rng.choice(['nearest', 'linear']) for _ in range(d)]
+                    for conv in ('single', 'array', 'mesh'):
+                        snip = REF + ('cvs = %r\nf = %s\nitp = make(%r, %r, f, cvs)\n' % (
+                            cvs, _rand_values(rng, shape, dtype), kind, schemes))
+                        if conv == 'mesh':
+                            snip += ('got = np.asarray(itp(sparse_meshgrid(*[np.array(c) for c in cvs])))\n'
+                                     'observed = got.tolist(); expected = f.tolist()\n'
+                                     'ok = got.shape == f.shape and bool(np.all(got == f))\n')
+                        elif dtype == 'str':
+                            snip += ('pts = list(itertools.product(*cvs))\n'
+                                     'got = [itp(p[0] if len(cvs) == 1 else list(p)) for p in pts] if %r == "single" '
+                                     'else list(itp(np.array(pts).T))\n'
+                                     'observed = [str(g) for g in got]; expected = f.ravel().tolist()\n'
+                                     'ok = observed == expected\n' % conv)
+                        else:
+                            snip += ('pts = list(itertools.product(*cvs))\n'
+                                     'observed = call(itp, %r, pts, %d); expected = [complex(v) for v in f.ravel()]\n'
+                                     'ok = observed == expected\n' % (conv, d))
+                        _probe(out, 'node-%s-%s-%s' % (kind, dtype, conv),
+                               '%s interpolator (%s values, %d-d, %s input) reproduces the node values exactly'
+                               % (kind, dtype, d, conv), snip)
+
+    # ---- 2. values anywhere (inside, ties, outside) against the textbook rule; conventions agree
+    npts = 6 if tier == 'quick' else 10
+    for _ in range(3 * reps):
+        for d in (1, 2, 3):
+            for kind, _m in kinds:
+                dtype = rng.choice(['float64', 'float64', 'float32', 'complex128'])
+                shape = [rng.randint(2, {1: 6, 2: 4, 3: 3}[d]) for _ in range(d)]
+                cvs = [gen_cvec(rng, n) for n in shape]
+                schemes = [rng.choice(['nearest', 'linear']) for _ in range(d)]
+                eff = {'nearest': ['nearest'] * d, 'linear': ['linear'] * d, 'per_axis': schemes}[kind]
+                pts = [[gen_coord(rng, c)[0] for c in cvs] for _ in range(npts)]
+                mesh = [sorted(set(gen_coord(rng, c)[0] for _ in range(rng.randint(2, 3)))) for c in cvs]
+                if len(mesh[0]) == 1 and d > 1:
+                    mesh[0].append(mesh[0][0] + 0.125)
+                snip = REF + ('cvs = %r\nf = %s\nschemes = %r\nitp = make(%r, schemes, f, cvs)\npts = %r\nmesh = %r\n'
+                              % (cvs, _rand_values(rng, shape, dtype), eff, kind, pts, mesh))
+                snip += ('expected = [ref_interp(schemes, cvs, f, p) for p in pts]\n'
+                         'a = call(itp, "array", pts, %d); b = call(itp, "single", pts, %d)\n'
+                         'mp = list(itertools.product(*mesh))\n'
+                         'm = [complex(v) for v in np.asarray(itp(sparse_meshgrid(*[np.array(x) for x in mesh]))).ravel()]\n'
+                         'o = np.full(len(pts), np.nan, dtype=f.dtype); r = itp(np.array(pts).T, out=o)\n'
+                         'observed = a\n'
+                         'ok = (close(a, expected, 1e-12) and a == b and r is o and [complex(v) for v in o] == a\n'
+                         '      and close(m, [ref_interp(schemes, cvs, f, p) for p in mp], 1e-12)\n'
+                         '      and m == call(itp, "array", mp, %d))\n' % (d, d, d))
+                _probe(out, 'textbook-%s-d%d' % (kind if kind != 'per_axis' else 'peraxis', d),
+                       '%s %s (%s, %d-d): closest node (right on ties) / multilinear blend / one-cell decay outside, '
+                       'identical for single points, point arrays, mesh grids and out=' % (kind, eff, dtype, d), snip)
+
+    # ---- 3. linear interpolation is exact for affine functions inside the hull
+    for _ in range(3 * reps):
+        for d in (1, 2, 3):
+            dtype = rng.choice(['float64', 'float32', 'complex128'])
+            shape = [rng.randint(2, {1: 6, 2: 4, 3: 3}[d]) for _ in range(d)]
+            cvs = [gen_cvec(rng, n) for n in shape]
+            coef = [float(rng.randint(-4, 4)) for _ in range(d + 1)]
+            pts = []
+            for _k in range(npts):
+                pts.append([c[0] + (c[-1] - c[0]) * rng.randint(0, 32) / 32.0 for c in cvs])
+            snip = REF + ('cvs = %r\ncoef = %r\npts = %r\n' % (cvs, coef, pts))
+            snip += ('aff = lambda p: coef[0] + sum(a * x for a, x in zip(coef[1:], p))\n'
+                     'f = np.array([aff(p) for p in itertools.product(*cvs)]).reshape(%r).astype(%r)\n'
+                     'if f.dtype.kind == "c": f = f * (1 + 2j)\n'
+                     'sc = (1 + 2j) if f.dtype.kind == "c" else 1\n'
+                     'expected = [complex(aff(p) * sc) for p in pts]\n'
+                     'observed = call(linear_interpolator(f, [np.array(c) for c in cvs]), "array", pts, %d)\n'
+                     'ok = close(observed, expected, 1e-12)\n' % (tuple(shape), dtype, d))
+            _probe(out, 'affine-exact-d%d-%s' % (d, dtype),
+                   'linear_interpolator reproduces an affine function everywhere inside the hull (%d-d, %s)' % (d, dtype),
+                   snip)
+
+    # ---- 4. sampling: every callable flavour gives the callable's values at the grid points
+    for it in range(len(FLAVOURS) * 2 * reps):
+        flavour = FLAVOURS[it % len(FLAVOURS)]
+        d = 1 if flavour in ('plain1d', 'ufunc') else rng.choice([1, 2, 3])
+        dtype = rng.choice(['float64', 'float32', 'complex128'])
+        if flavour == 'ufunc' and dtype == 'complex128':
+            dtype = 'float64'
+        cplx = dtype == 'complex128'
+        sp, spsrc = make_space(rng, d, dtype)
+        coords = None
+        if flavour == 'broadcast':
+            coords = rng.sample(range(d), rng.randint(0, max(0, d - 1)))
+        if flavour == 'const':
+            coords = []
+        if flavour == 'ufunc':
+            ex_re, ex_im = Ex('sub', Ex('const', 0.0), Ex('coord', 0)), Ex('const', 0.0)
+        else:
+            ex_re = gen_ex(rng, d, rng.choice([1, 2, 3]), coords)
+            ex_im = gen_ex(rng, d, rng.choice([0, 1, 2]), coords) if cplx else Ex('const', 0.0)
+        src = make_callable_src(flavour, ex_re, ex_im, cplx, d)
+        # expected values from a plain Python loop over the grid points with the scalar form of the expression
+        scalar = ex_re.src(False, 'p') + ((' + 1j * (%s)' % ex_im.src(False, 'p')) if cplx else '')
+        snip = ('import numpy as np, odl, warnings\nwarnings.simplefilter("ignore")\n' + spsrc + src +
+                'got = space.element(f).asarray()\n'
+                'expected = np.array([%s for p in space.points()]).reshape(space.shape).astype(space.dtype)\n'
+                'observed = got\nok = got.shape == space.shape and got.dtype == space.dtype and bool(np.all(got == expected))\n'
+                % scalar)
+        _probe(out, 'sampling-%s-%s' % (flavour, dtype),
+               'space.element(callable) for a %s callable (%s, %d-d) equals the callable at the grid points'
+               % (flavour, dtype, d), snip)
+
+    # ---- 5. operators built on the interpolators
+    for _ in range(2 * reps):
+        for d in (1, 2):
+            shape = [rng.randint(2, 4) for _ in range(d)]
+            interp = rng.choice(['nearest', 'linear'] + ([['nearest', 'linear'], ['linear', 'nearest']] if d == 2 else []))
+            vals = [float(rng.randint(-9, 9)) for _ in range(int(np.prod(shape)))]
+            base = ('import numpy as np, odl, warnings\nwarnings.simplefilter("ignore")\n'
+                    'space = odl.uniform_discr(%r, %r, %r)\nx = space.element(np.array(%r).reshape(%r))\n'
+                    % ([0.0] * d, [float(n) for n in shape], shape, vals, tuple(shape)))
+            _probe(out, 'resampling-same-grid-identity',
+                   'Resampling(space, space, %r) is the identity (node reproduction)' % (interp,),
+                   base + 'observed = odl.Resampling(space, space, %r)(x).asarray()\nexpected = x.asarray()\n'
+                          'ok = bool(np.all(observed == expected))\n' % (interp,))
+            _probe(out, 'linear-deform-zero-displacement',
+                   'linear_deform with zero displacement returns the template (%r)' % (interp,),
+                   base + 'from odl.deform import linear_deform\n'
+                          'observed = linear_deform(x, space.tangent_bundle.zero(), interp=%r)\nexpected = x.asarray()\n'
+                          'ok = bool(np.all(observed == expected))\n' % (interp,))
+            _probe(out, 'resampling-out-argument-valueerror',
+                   'Resampling(...)(x, out=y) evaluates in place like every operator',
+                   base + 'op = odl.Resampling(space, space, %r)\ny = space.element(np.full(%r, np.nan))\n'
+                          'op(x, out=y)\nobserved = y.asarray(); expected = x.asarray()\n'
+                          'ok = bool(np.all(observed == expected))\n' % (interp, tuple(shape)))
+
+    # ---- 6. the recorded defects, probed on their own inputs
+    for kind in ('nearest', 'linear', 'per_axis'):
+        for d in (2, 3):
+            shape = [rng.randint(2, 3) for _ in range(d)]
+            cvs = [gen_cvec(rng, n) for n in shape]
+            mesh = [[c[0]] if k == 0 else [c[0], c[-1]] for k, c in enumerate(cvs)]
+            snip = REF + ('cvs = %r\nf = %s\nschemes = %r\nitp = make(%r, schemes, f, cvs)\nmesh = %r\n'
+                          % (cvs, _rand_values(rng, shape, 'float64'), ['linear'] * d, kind, mesh))
+            snip += ('observed = np.asarray(itp(sparse_meshgrid(*[np.array(x) for x in mesh])))\n'
+                     'expected = f[tuple(np.ix_(*[[0] if k == 0 else [0, -1] for k in range(%d)]))]\n'
+                     'ok = observed.shape == expected.shape and bool(np.all(observed == expected))\n' % d)
+            _probe(out, 'interp-meshgrid-first-axis-singleton',
+                   '%s interpolator on a mesh grid with one point along the first axis (%d-d)' % (kind, d), snip)
+    for sch in ('nearest', ['nearest', 'nearest']):
+        d = 1 if sch == 'nearest' else 2
+        shape = [3] * d
+        snip = REF + ('cvs = %r\nf = np.arange(%d).reshape(%r)\n' % ([[0.0, 1.0, 2.0]] * d, 3 ** d, tuple(shape)))
+        snip += ('itp = per_axis_interpolator(f, [np.array(c) for c in cvs], %r)\n'
+                 'pts = list(itertools.product(*cvs))\nobserved = call(itp, "array", pts, %d)\n'
+                 'expected = [complex(v) for v in f.ravel()]\nok = observed == expected\n' % (sch, d))
+        _probe(out, 'per-axis-interp-integer-values-typeerror',
+               'per_axis_interpolator(..., %r) on integer values returns the closest node value' % (sch,), snip)
+    for d in (1, 2):
+        shape = [1] + [3] * (d - 1)
+        cvs = [[0.5]] + [[0.0, 1.0, 2.0]] * (d - 1)
+        snip = REF + ('cvs = %r\nf = np.arange(1.0, %d.0).reshape(%r)\n' % (cvs, int(np.prod(shape)) + 1, tuple(shape)))
+        snip += ('itp = linear_interpolator(f, [np.array(c) for c in cvs])\n'
+                 'pts = list(itertools.product(*cvs))\nobserved = call(itp, "array", pts, %d)\n'
+                 'expected = [complex(v) for v in f.ravel()]\nok = observed == expected\n' % d)
+        _probe(out, 'linear-interp-single-node-axis-nonfinite',
+               'linear_interpolator on a grid with a single node along an axis (%d-d) reproduces the node values' % d,
+               snip)
+    return out
 
 
 LEVEL_TEXT = 'in progress'
